@@ -122,7 +122,7 @@ def modelRow (p : Plugin) (o : Opt) : Option PluginRow :=
   match parseOpt o with
   | .allow => pluginByFlag p true
   | .deny => pluginByFlag p false
-  | .confError => some ⟨.confError, .failed, none, .failed, none⟩
+  | .confError => some ⟨.confError, .failed, none, none, .failed, none, none⟩
   | .failed => none
 
 /-- tie to the code: on **every probed option value** (all letter cases of the eight words, the
